@@ -22,8 +22,9 @@ def gen_template(rng):
 
 
 def exec_truth(argv, e):
-    # recorder outcome (VERIF_REC_FN=outcome6): chain % 6 in {0,1} exit 0; 2 exit 1; 3 exit 3; 4 killed by SIGKILL; 5 by SIGTERM
-    return refeval.rec_chain(argv[1:]) % 6 in (0, 1)
+    # recorder outcome (VERIF_REC_FN=outcome8): chain % 8 in {0,1} exit 0; 2 exit 1; 3 exit 128; 4 killed by SIGKILL; 5 exit 255; 6 exit 127;
+    # 7 exit 129 - true iff the command exited with status 0
+    return refeval.rec_chain(argv[1:]) % 8 in (0, 1)
 
 
 def gen_expr(rng, tag):
@@ -136,7 +137,7 @@ def worker(job):
                 toks = [paths.get(x, x) for x in toks]
                 st.inc("unexecutable_command_runs")
             log = os.path.join(sb, "rec.log")
-            env = common.clean_env({"VERIF_REC_LOG": log, "VERIF_REC_FN": "outcome6"})
+            env = common.clean_env({"VERIF_REC_LOG": log, "VERIF_REC_FN": "outcome8"})
             if root.startswith("-") and root != "-":
                 lf = os.path.join(base, "roots-%d.lst" % t)
                 with open(lf, "wb") as f_:
@@ -169,7 +170,7 @@ def worker(job):
             exp_runs = [(d, argv[1:]) for (name, d, argv, path) in renv.exec_log if argv[0] == common.REC or (argv[0] == "./tool" and d in tool_dirs)]
             exp_plus = [arg for (_ast, lst) in renv.plus.values() for (d_, arg, path_) in lst]
             for d_, a_ in exp_runs:
-                st.inc("child_outcome:" + ["exit0", "exit0", "exit1", "exit3", "SIGKILL", "SIGTERM"][refeval.rec_chain(a_) % 6])
+                st.inc("child_outcome:" + ["exit0", "exit0", "exit1", "exit128", "SIGKILL", "exit255", "exit127", "exit129"][refeval.rec_chain(a_) % 8])
             got = xref.read_reclog(log)
             got_runs = []
             got_plus = []
@@ -234,6 +235,28 @@ def worker(job):
                 if runs2 != want2 or rc2 != 0:
                     st.violate("exec-single", None, {"args": ["find"] + a2[1:], "problems": ["runs (cwd, argv) %r, expected %r" % (runs2[:3], want2[:3])],
                                                      "exit": rc2, "stderr": err2[-200:]}, {"args": ["find"] + a2[1:]})
+            if t % 10 == 5 and top == "r":
+                # starting points whose last component is '..' (or that are '/'): -execdir on an entry directly below them runs in
+                # that directory - which is not find's own working directory here
+                dirs2 = [n.path for n in nodes if n.kind == "d" and n.path != "r" and not any(0xDC80 <= ord(ch) <= 0xDCFF for ch in n.path)
+                         and "\n" not in n.path]
+                if dirs2:
+                    wd2 = rng.choice(dirs2)
+                    rootsp = rng.choice(["..", "../", "./..", "../../" + wd2.split("/")[-2] + "/.." if wd2.count("/") >= 2 else ".."])
+                    xlog = os.path.join(sb, "rec-dotdot.log")
+                    a3 = [common.FIND, rootsp, "-mindepth", "1", "-maxdepth", "1", "-sorted", "-execdir", common.REC, tag + "dd", "{}", ";"]
+                    rc3, out3, err3, to3 = common.run_cmd(a3, cwd=os.path.join(sb, wd2), env=common.clean_env({"VERIF_REC_LOG": xlog}), timeout=60)
+                    parent = os.path.realpath(os.path.join(sb, wd2, rootsp))
+                    names3 = sorted(os.listdir(parent), key=os.fsencode)
+                    runs3 = [(os.path.realpath(cwd_.decode("utf-8", "surrogateescape")), [x.decode("utf-8", "surrogateescape") for x in argv_])
+                             for cwd_, argv_ in xref.read_reclog(xlog)]
+                    want3 = [(parent, [tag + "dd", "./" + nm]) for nm in names3]
+                    st.inc("evaluations")
+                    st.inc("execdir_runs_below_a_dotdot_starting_point")
+                    if runs3 != want3 or rc3 != 0:
+                        st.violate("exec-single", None, {"args": ["find"] + a3[1:], "cwd": wd2,
+                                                         "problems": ["runs (cwd, argv) %r, expected %r" % (runs3[:3], want3[:3])], "exit": rc3,
+                                                         "stderr": err3[-200:]}, {"args": ["find"] + a3[1:], "cwd": wd2, "tree": [n.to_json() for n in nodes]})
             if t % 13 == 0:
                 st.sample({"args": ["find", "r"] + toks, "runs": got_runs[:2]})
             common.force_rmtree(sb)
@@ -246,13 +269,13 @@ def run(ctx):
     ctx.rule = ("hostile file names (blanks, quotes, newlines, {}, leading dashes, glob/control/multibyte characters) x argument "
                 "templates with 0-3 {} per argument, embedded/adjacent {}, lone braces, empty arguments, arguments that look like "
                 "find primaries x -exec/-execdir x 7 positions of the action (plain, after tests, negated, in -o, twice, missing "
-                "command); recorder outcome (exit 0 / 1 / 3 / death by SIGKILL / SIGTERM) is a pure function of argv; distinct = (expression, tree)")
+                "command); recorder outcome (exit 0 / 1 / 127 / 128 / 129 / 255 / death by SIGKILL) is a pure function of argv; distinct = (expression, tree)")
     ctx.assumptions = ["reference evaluator + substitution model template.replace('{}', path)", "starting point spelled 'r' (basename well defined)",
                        "'{}' in the command name itself not judged"]
     nw = common.NCPU
     n = ctx.scale(480, 128000)
     ctx.pmap(worker, [(k, n // nw, ctx.seed) for k in range(nw)])
     for key in ("kind:-exec", "kind:-execdir", "missing_command_runs", "templates_with_0_braces", "templates_with_3_braces", "shape:negated", "child_outcome:SIGKILL",
-                "child_outcome:SIGTERM", "child_outcome:exit3", "child_outcome:exit0", "trees_with_non_utf8_names",
+                "child_outcome:exit128", "child_outcome:exit255", "child_outcome:exit0", "trees_with_non_utf8_names",
                 "unexecutable_command_runs", "relative_tool_runs", "multi_component_starting_points"):
         ctx.require(key, 3)
